@@ -828,6 +828,26 @@ impl ZmtpEngine {
   }
 }
 
+#[cfg(rzmq_verif)]
+impl ZmtpEngine {
+  /// Verification accessor: overrides the engine's notion of "last activity".
+  pub fn verif_set_last_activity(&mut self, t: Instant) {
+    self.last_activity_time = t;
+  }
+  pub fn verif_last_activity(&self) -> Instant {
+    self.last_activity_time
+  }
+  pub fn verif_last_ping(&self) -> Option<Instant> {
+    self.last_ping_sent_time
+  }
+  pub fn verif_partial_len(&self) -> usize {
+    self.partial_batch.len()
+  }
+  pub fn verif_version(&self) -> Option<ZmtpVersion> {
+    self.version
+  }
+}
+
 // --- Module-level helpers ---
 
 fn local_mechanism_name_bytes(config: &ZmtpEngineConfig) -> &'static [u8; MECHANISM_LENGTH] {
